@@ -1,6 +1,28 @@
 (* Proofs/FrameLaws.v — the frame law of a build (property C03): a build never
-   changes, moves or deletes a regular file outside the managed set (the cache
-   file, the targets of this build, the outputs recorded by the previous build). *)
+   changes the bytes or timestamp of, moves, deletes — or creates — a regular
+   file outside the managed set: the cache file, the paths passed to build_file
+   in this build, and the output files recorded by the previous build.
+
+   Method.  [fkeeps Q fs fs']: the regular files at paths outside Q are the same
+   nodes in fs and fs'.  [Inv]: facts about the bookkeeping of a running build
+   that make every mutation land inside Q (backed-up paths, paths claimed in the
+   new cache, built paths are all in Q; the old cache and the cache file name
+   are fixed).  [Rel w w' := Inv w -> Inv w' /\ fkeeps (w_fs w) (w_fs w')] is a
+   preorder, so the [pres] toolkit of ReplayLaws applies; every routine of the
+   model is shown to preserve it, bottom-up.
+
+   Which paths are mutated where (all in Q = Managed P old cf):
+   - remove: the current target and c_built of the new cache (P), the created
+     files of the old cache (commit), the cache file;
+   - rename into the backup area: an old created file in the way of a directory
+     (make_one_dir), the target (P), the cache file, and in make_room an entry
+     the virtual view denies although a file is there — by is_file_no_read that
+     is the cache file, a path claimed and still in progress in the new cache
+     (P), or a created file of the old cache; never a directory (every call
+     site has just seen isfile, or isdir = false);
+   - replace from the backup area: backed-up paths only;
+   - write: the cache file, the current target (P);
+   - mkdir/makedirs/rmdir never touch a regular file. *)
 From Coq Require Import List String Ascii NArith ZArith Bool Arith Lia.
 From FB.Base Require Import PyVal Fs.
 From FB.Gen Require Import JsonUtilGen.
@@ -19,16 +41,8 @@ Local Open Scope list_scope.
   new_assert_no_file_svb new_assert_no_subbuild_svb m_query_svb : pres.
 
 (* ================================================================== *)
-(* 0. Records registered by a cached operation                         *)
+(* 0. Auxiliary facts                                                  *)
 (* ================================================================== *)
-
-(* the (path, raised) pairs that [register_op] / [register_parsed] enter into c_files *)
-Fixpoint op_regs (o : op) : list (path * bool) :=
-  match o with
-  | OSimple _ _ _ => []
-  | OBuildFile p _ _ _ _ subs _ _ raised sf => (if sf then [] else [(p, raised)]) ++ flat_map op_regs subs
-  | OSubbuild _ _ _ subs _ _ _ => flat_map op_regs subs
-  end.
 
 Lemma pres_mapM_In : forall (P : PO) A (f : A -> M unit) l,
   (forall x, In x l -> pres P (f x)) -> pres P (mapM_ f l).
@@ -52,14 +66,14 @@ Proof.
   - right. apply IH, H.
 Qed.
 
-Lemma subs_get_In : forall l k o, subs_get l k = Some o -> exists k', In (k', o) l.
+Lemma rename_out_dir : forall fs p fs', rename_out fs p = inl (fs', NDir) -> lookup fs p = Some NDir.
 Proof.
-  induction l as [|[q o'] l IH]; intros k o H; cbn [subs_get] in H; [discriminate|].
-  destruct (py_eq q k) eqn:E.
-  - inversion H; subst. exists q. left; reflexivity.
-  - destruct (IH _ _ H) as [k' Hk']. exists k'. right; exact Hk'.
+  intros fs p fs' H. unfold rename_out in H.
+  destruct (lookup fs p) as [[g|]|] eqn:E1; destruct p as [|n d]; try discriminate; reflexivity.
 Qed.
 
+(* registering a cached record changes neither c_built nor the set of paths that
+   are claimed and still in progress (entries [Some None] of c_files) *)
 Lemma register_op_built : forall o c, c_built (register_op c o) = c_built c.
 Proof.
   induction o as [q r e | p c0 f a k subs r cr ra sf IH | f a k subs r ra sf IH] using op_ind';
@@ -72,44 +86,25 @@ Proof.
     rewrite G. destruct sf; reflexivity.
 Qed.
 
-Lemma fold_register_has_file : forall subs,
-  Forall (fun o => forall c q, cache_has_file (register_op c o) q = true ->
-                   cache_has_file c q = true \/ exists b, In (q, b) (op_regs o)) subs ->
-  forall c q, cache_has_file (fold_left register_op subs c) q = true ->
-    cache_has_file c q = true \/ exists b, In (q, b) (flat_map op_regs subs).
+Definition pending (c : cache) (p : path) : Prop := files_get (c_files c) p = Some None.
+
+Lemma fold_register_pending : forall subs,
+  Forall (fun o => forall c q, pending (register_op c o) q -> pending c q) subs ->
+  forall c q, pending (fold_left register_op subs c) q -> pending c q.
 Proof.
-  intros subs HF. induction HF as [|s rest Hs HF IH]; intros c q H; cbn [fold_left flat_map] in *.
-  - left; exact H.
-  - destruct (IH _ _ H) as [H1 | [b Hb]].
-    + destruct (Hs _ _ H1) as [H2 | [b Hb]]; [left; exact H2|].
-      right. exists b. apply in_or_app. left; exact Hb.
-    + right. exists b. apply in_or_app. right; exact Hb.
+  intros subs HF. induction HF as [|s rest Hs HF IH]; intros c q H; cbn [fold_left] in H; [exact H|].
+  apply Hs, IH, H.
 Qed.
 
-Lemma register_op_has_file : forall o c q, cache_has_file (register_op c o) q = true ->
-  cache_has_file c q = true \/ exists b, In (q, b) (op_regs o).
+Lemma register_op_pending : forall o c q, pending (register_op c o) q -> pending c q.
 Proof.
   induction o as [q0 r e | p c0 f a k subs r cr ra sf IH | f a k subs r ra sf IH] using op_ind';
-    intros c q H; cbn [register_op op_regs] in *.
-  - left; exact H.
-  - destruct (fold_register_has_file subs IH _ _ H) as [H1 | [b Hb]].
-    + destruct sf; [left; exact H1|].
-      unfold cache_has_file in H1. cbn [c_files cache_with] in H1. rewrite files_get_set in H1.
-      destruct (path_eqb p q) eqn:E.
-      * apply path_eqb_eq in E. subst q. right. exists ra. apply in_or_app. left. left. reflexivity.
-      * left. exact H1.
-    + right. exists b. apply in_or_app. right. exact Hb.
-  - destruct (fold_register_has_file subs IH _ _ H) as [H1 | [b Hb]].
-    + left. destruct sf; exact H1.
-    + right. exists b. exact Hb.
-Qed.
-
-(* ---- file-system level facts ---- *)
-
-Lemma rename_out_dir : forall fs p fs', rename_out fs p = inl (fs', NDir) -> lookup fs p = Some NDir.
-Proof.
-  intros fs p fs' H. unfold rename_out in H.
-  destruct (lookup fs p) as [[g|]|] eqn:E1; destruct p as [|n d]; try discriminate; reflexivity.
+    intros c q H; cbn [register_op] in H.
+  - exact H.
+  - apply (fold_register_pending subs IH) in H. destruct sf; [exact H|].
+    unfold pending in *. cbn [c_files cache_with] in H. rewrite files_get_set in H.
+    destruct (path_eqb p q); [discriminate H | exact H].
+  - apply (fold_register_pending subs IH) in H. destruct sf; exact H.
 Qed.
 
 (* ================================================================== *)
@@ -122,14 +117,8 @@ Variable Q : path -> Prop.        (* the managed paths *)
 Variable old : cache.             (* the previous build *)
 Variable cf : path.               (* the cache file *)
 
-(* [Q] need not be decidable: "managed" is used in its doubly negated form *)
-Definition QQ (p : path) : Prop := ~ ~ Q p.
-
-Lemma Q_QQ : forall p, Q p -> QQ p.
-Proof. intros p H N. exact (N H). Qed.
-
-(* regular files outside Q are the same before and after: none changed, moved,
-   deleted, and none created *)
+(* regular files outside Q are the same before and after: none changed, moved
+   or deleted, and none created *)
 Definition fkeeps (fs fs' : fsT) : Prop :=
   forall p, ~ Q p -> forall f, lookup fs p = Some (NFile f) <-> lookup fs' p = Some (NFile f).
 
@@ -143,23 +132,17 @@ Proof.
   - apply (H1 p Hp f), (H2 p Hp f), H.
 Qed.
 
-Lemma fkeeps_isfile_false : forall fs fs' p, fkeeps fs fs' -> ~ Q p -> isfile fs p = false -> isfile fs' p = false.
-Proof.
-  intros fs fs' p K Hp H. destruct (isfile fs' p) eqn:E; [|reflexivity].
-  apply isfile_lookup in E. destruct E as [f Ef]. apply (K p Hp f) in Ef.
-  unfold isfile in H. rewrite Ef in H. discriminate H.
-Qed.
-
-(* a step that changes one path *)
+(* a step that changes one path: a managed one, or one that holds no regular
+   file before or after *)
 Lemma fkeeps_one : forall fs fs' p0,
   (forall q, q <> p0 -> lookup fs' q = lookup fs q) ->
-  (QQ p0 \/ ((forall f, lookup fs p0 <> Some (NFile f)) /\ (forall f, lookup fs' p0 <> Some (NFile f)))) ->
+  (Q p0 \/ ((forall f, lookup fs p0 <> Some (NFile f)) /\ (forall f, lookup fs' p0 <> Some (NFile f)))) ->
   fkeeps fs fs'.
 Proof.
   intros fs fs' p0 Hfr Hp0 p Hp f.
   destruct (path_eqb p p0) eqn:E.
   - apply path_eqb_eq in E. subst p0. destruct Hp0 as [HQ | [H1 H2]].
-    + exfalso. exact (HQ Hp).
+    + exfalso. exact (Hp HQ).
     + split; intro H; exfalso; [exact (H1 f H) | exact (H2 f H)].
   - apply path_eqb_neq in E. rewrite (Hfr p E). split; auto.
 Qed.
@@ -176,24 +159,25 @@ Proof.
   apply (fkeeps_one fs fs' p H3). right. split; intros f E; congruence.
 Qed.
 
-Lemma remove_fkeeps : forall fs p fs', QQ p -> remove fs p = inl fs' -> fkeeps fs fs'.
+Lemma remove_fkeeps : forall fs p fs', Q p -> remove fs p = inl fs' -> fkeeps fs fs'.
 Proof.
   intros fs p fs' Hp H. apply remove_frame in H. destruct H as (_ & _ & H3).
   apply (fkeeps_one fs fs' p H3). left. exact Hp.
 Qed.
 
-Lemma replace_in_fkeeps : forall fs p f fs', QQ p -> replace_in fs p f = inl fs' -> fkeeps fs fs'.
+Lemma replace_in_fkeeps : forall fs p f fs', Q p -> replace_in fs p f = inl fs' -> fkeeps fs fs'.
 Proof.
   intros fs p f fs' Hp H. apply replace_in_frame in H. destruct H as (_ & H3).
   apply (fkeeps_one fs fs' p H3). left. exact Hp.
 Qed.
 
-Lemma write_file_fkeeps : forall fs p b j m i fs', QQ p -> write_file fs p b j m i = inl fs' -> fkeeps fs fs'.
+Lemma write_file_fkeeps : forall fs p b j m i fs', Q p -> write_file fs p b j m i = inl fs' -> fkeeps fs fs'.
 Proof.
   intros fs p b j m i fs' Hp H. apply write_file_frame in H. destruct H as (_ & H3).
   apply (fkeeps_one fs fs' p H3). left. exact Hp.
 Qed.
 
+(* os.makedirs only ever adds directories at absent paths, also when it fails half-way *)
 Lemma makedirs_p_fkeeps : forall p fs fs' e, makedirs_p fs p = (fs', e) -> fkeeps fs fs'.
 Proof.
   induction p as [|n d IH]; intros fs fs' e H; cbn [makedirs_p] in H.
@@ -211,9 +195,9 @@ Qed.
 (* ---- the invariant carried through a build ---- *)
 Definition Inv (w : world) : Prop :=
   w_old w = old /\ w_cachefile w = cf /\
-  (forall x, In x (w_backups w) -> QQ (fst x)) /\
-  (forall p, In p (c_built (w_new w)) -> QQ p) /\
-  (forall p, cache_has_file (w_new w) p = true -> ~ Q p -> isfile (w_fs w) p = false).
+  (forall x, In x (w_backups w) -> Q (fst x)) /\
+  (forall p, In p (c_built (w_new w)) -> Q p) /\
+  (forall p, pending (w_new w) p -> Q p).
 
 Definition Rel (w w' : world) : Prop := Inv w -> Inv w' /\ fkeeps (w_fs w) (w_fs w').
 
@@ -230,13 +214,18 @@ Definition RPO : PO := {| rel := Rel; po_refl := Rel_refl; po_trans := Rel_trans
 
 Lemma Inv_step : forall w w', Inv w ->
   w_old w' = w_old w -> w_cachefile w' = w_cachefile w -> w_new w' = w_new w ->
-  (forall x, In x (w_backups w') -> In x (w_backups w) \/ QQ (fst x)) ->
-  fkeeps (w_fs w) (w_fs w') -> Inv w'.
+  (forall x, In x (w_backups w') -> In x (w_backups w) \/ Q (fst x)) -> Inv w'.
 Proof.
-  intros w w' (A & B & C & D & E) Ho Hc Hn Hb K. unfold Inv. rewrite Ho, Hc, Hn.
+  intros w w' (A & B & C & D & E) Ho Hc Hn Hb. unfold Inv. rewrite Ho, Hc, Hn.
   repeat split; auto.
-  - intros x Hx. destruct (Hb x Hx) as [H|H]; auto.
-  - intros p Hp Hq. eapply fkeeps_isfile_false; eauto.
+  intros x Hx. destruct (Hb x Hx) as [H|H]; auto.
+Qed.
+
+Lemma Inv_same : forall w w', Inv w ->
+  w_old w' = w_old w -> w_cachefile w' = w_cachefile w -> w_new w' = w_new w ->
+  w_backups w' = w_backups w -> Inv w'.
+Proof.
+  intros w w' Hinv Ho Hc Hn Hb. eapply Inv_step; eauto. intros x Hx. left. rewrite <- Hb. exact Hx.
 Qed.
 
 Lemma Rel_same : forall w w',
@@ -244,9 +233,7 @@ Lemma Rel_same : forall w w',
   w_backups w' = w_backups w -> Rel w w'.
 Proof.
   intros w w' Hf Ho Hc Hn Hb Hinv. rewrite Hf. split; [|apply fkeeps_refl].
-  eapply Inv_step; eauto.
-  - intros x Hx. left. rewrite <- Hb. exact Hx.
-  - rewrite Hf. apply fkeeps_refl.
+  eapply Inv_same; eauto.
 Qed.
 
 Lemma svb_Rel : forall w w', svbPO w w' -> RPO w w'.
@@ -268,6 +255,9 @@ Proof.
   intros A k Hk w w' r H Hinv. unfold bind, get in H. exact (Hk w Hinv w w' r H Hinv).
 Qed.
 
+Lemma Rel_set_log : forall l w, Rel w (set_log l w).
+Proof. intros l w. apply Rel_same; reflexivity. Qed.
+
 (* ================================================================== *)
 (* 2. Primitives                                                       *)
 (* ================================================================== *)
@@ -277,12 +267,10 @@ Lemma effect_R : forall what p f,
 Proof.
   intros what p f Hf w w' r H Hinv. unfold effect in H. cbv zeta in H.
   destruct (existsb (Nat.eqb (w_effects w)) (w_faults w)).
-  - inversion H; subst. split; [|apply fkeeps_refl].
-    eapply Inv_step; eauto; try reflexivity. apply fkeeps_refl.
+  - inversion H; subst. split; [|apply fkeeps_refl]. eapply Inv_same; eauto.
   - cbn [w_fs set_effects] in H. destruct (f (w_fs w)) as [fs'|e] eqn:E; inversion H; subst.
-    + cbn [w_fs set_log set_fs]. split; [|eapply Hf; eauto].
-      eapply Inv_step; eauto; try reflexivity; try (cbn [w_fs set_log set_fs]; eapply Hf; eauto).
-    + split; [|apply fkeeps_refl]. eapply Inv_step; eauto; try reflexivity. apply fkeeps_refl.
+    + cbn [w_fs set_log set_fs]. split; [|eapply Hf; eauto]. eapply Inv_same; eauto.
+    + split; [|apply fkeeps_refl]. eapply Inv_same; eauto.
 Qed.
 
 Lemma effect_p_R : forall what p f,
@@ -290,13 +278,10 @@ Lemma effect_p_R : forall what p f,
 Proof.
   intros what p f Hf w w' r H Hinv. unfold effect_p in H. cbv zeta in H.
   destruct (existsb (Nat.eqb (w_effects w)) (w_faults w)).
-  - inversion H; subst. split; [|apply fkeeps_refl].
-    eapply Inv_step; eauto; try reflexivity. apply fkeeps_refl.
+  - inversion H; subst. split; [|apply fkeeps_refl]. eapply Inv_same; eauto.
   - cbn [w_fs set_effects] in H. destruct (f (w_fs w)) as [fs' [e|]] eqn:E; inversion H; subst.
-    + cbn [w_fs set_log set_fs]. split; [|eapply Hf; eauto].
-      eapply Inv_step; eauto; try reflexivity; try (cbn [w_fs set_log set_fs]; eapply Hf; eauto).
-    + cbn [w_fs set_log set_fs]. split; [|eapply Hf; eauto].
-      eapply Inv_step; eauto; try reflexivity; try (cbn [w_fs set_log set_fs]; eapply Hf; eauto).
+    + cbn [w_fs set_log set_fs]. split; [|eapply Hf; eauto]. eapply Inv_same; eauto.
+    + cbn [w_fs set_log set_fs]. split; [|eapply Hf; eauto]. eapply Inv_same; eauto.
 Qed.
 
 Lemma effect_mkdir_R : forall what p, pres RPO (effect what p (fun fs => mkdir fs p)).
@@ -305,13 +290,13 @@ Proof. intros. apply effect_R. intros fs fs' H. eapply mkdir_fkeeps; eauto. Qed.
 Lemma effect_rmdir_R : forall what p, pres RPO (effect what p (fun fs => rmdir fs p)).
 Proof. intros. apply effect_R. intros fs fs' H. eapply rmdir_fkeeps; eauto. Qed.
 
-Lemma effect_remove_R : forall what p, QQ p -> pres RPO (effect what p (fun fs => remove fs p)).
+Lemma effect_remove_R : forall what p, Q p -> pres RPO (effect what p (fun fs => remove fs p)).
 Proof. intros what p Hp. apply effect_R. intros fs fs' H. eapply remove_fkeeps; eauto. Qed.
 
-Lemma effect_replace_R : forall what p f, QQ p -> pres RPO (effect what p (fun fs => replace_in fs p f)).
+Lemma effect_replace_R : forall what p f, Q p -> pres RPO (effect what p (fun fs => replace_in fs p f)).
 Proof. intros what p f Hp. apply effect_R. intros fs fs' H. eapply replace_in_fkeeps; eauto. Qed.
 
-Lemma effect_write_R : forall what p b j m i, QQ p ->
+Lemma effect_write_R : forall what p b j m i, Q p ->
   pres RPO (effect what p (fun fs => write_file fs p b j m i)).
 Proof. intros what p b j m i Hp. apply effect_R. intros fs fs' H. eapply write_file_fkeeps; eauto. Qed.
 
@@ -334,7 +319,7 @@ Qed.
 (* back_up_and_remove of something that is not a directory, and is managed if it is a file *)
 Lemma back_up_and_remove_R : forall p w w' r,
   back_up_and_remove p w = (w', r) -> Inv w ->
-  isdir (w_fs w) p = false -> (~ Q p -> isfile (w_fs w) p = false) ->
+  isdir (w_fs w) p = false -> (isfile (w_fs w) p = true -> Q p) ->
   Inv w' /\ fkeeps (w_fs w) (w_fs w').
 Proof.
   intros p w w' r H Hinv Hnd Hf. unfold back_up_and_remove in H.
@@ -342,51 +327,63 @@ Proof.
   2:{ refine (effect_R _ _ _ _ w w' _ E1 Hinv). intros fs fs' X. inversion X; subst. apply fkeeps_refl. }
   destruct (effect_fields _ _ _ _ _ _ E1) as (Fo & Fc & Fn & Fb & Ffs).
   assert (Ffs' : w_fs w1 = w_fs w) by (destruct Ffs as [X|X]; [exact X | inversion X; reflexivity]).
-  assert (Hinv1 : Inv w1).
-  { eapply Inv_step; eauto. intros x Hx. left. rewrite <- Fb. exact Hx. rewrite Ffs'. apply fkeeps_refl. }
+  assert (Hinv1 : Inv w1) by (eapply Inv_same; eauto).
   rewrite <- Ffs' in *. clear E1 Fo Fc Fn Fb Ffs Ffs' Hinv w. rename w1 into w. rename Hinv1 into Hinv.
   cbv zeta in H.
   destruct (existsb (Nat.eqb (w_effects w)) (w_faults w)).
-  { inversion H; subst. split; [|apply fkeeps_refl]. eapply Inv_step; eauto; try reflexivity. apply fkeeps_refl. }
+  { inversion H; subst. split; [|apply fkeeps_refl]. eapply Inv_same; eauto. }
   cbn [w_fs set_effects] in H.
   destruct (rename_out (w_fs w) p) as [[fs' [f|]]|e] eqn:E.
   - inversion H; subst. cbn [w_fs set_log set_backups set_fs set_effects].
     pose proof (rename_out_file_frame _ _ _ _ E) as (G1 & G2 & G3).
-    assert (HQ : QQ p).
-    { intro N. specialize (Hf N). unfold isfile in Hf. rewrite G1 in Hf. discriminate Hf. }
-    assert (K : fkeeps (w_fs w) fs') by (apply (fkeeps_one _ _ p G3); left; exact HQ).
-    split; [|exact K]. eapply Inv_step; eauto; try reflexivity.
+    assert (HQ : Q p) by (apply Hf; unfold isfile; rewrite G1; reflexivity).
+    split; [|apply (fkeeps_one _ _ p G3); left; exact HQ].
+    eapply Inv_step; eauto.
     cbn [w_backups set_log set_backups set_fs set_effects]. intros x Hx.
     apply in_app_or in Hx. destruct Hx as [Hx | [<- | []]]; [left; exact Hx | right; exact HQ].
   - apply rename_out_dir in E. unfold isdir in Hnd. rewrite E in Hnd. discriminate Hnd.
   - assert (G : w' = set_effects (S (w_effects w)) w) by (destruct e; inversion H; reflexivity).
-    subst w'. split; [|apply fkeeps_refl]. eapply Inv_step; eauto; try reflexivity. apply fkeeps_refl.
+    subst w'. split; [|apply fkeeps_refl]. eapply Inv_same; eauto.
 Qed.
 
-(* [w <- get ;; if isfile (w_fs w) p then back_up_and_remove p ... ] *)
-Lemma guarded_backup_R : forall p (g : world -> bool), QQ p ->
-  pres RPO (bind get (fun w => if isfile (w_fs w) p && g w
-                               then bind (back_up_and_remove p) (fun _ => ret tt) else ret tt)).
+(* [if c then back_up_and_remove p ...] where c implies that p is a managed regular file *)
+Lemma guarded_backup_R : forall p (c : bool) w w' r,
+  (if c then bind (back_up_and_remove p) (fun _ => ret tt) else ret tt) w = (w', r) -> Inv w ->
+  (c = true -> isfile (w_fs w) p = true /\ Q p) -> Inv w' /\ fkeeps (w_fs w) (w_fs w').
 Proof.
-  intros p g Hp w w' r H Hinv. unfold bind at 1, get in H.
-  destruct (isfile (w_fs w) p && g w) eqn:G.
-  - apply andb_true_iff in G. destruct G as [G _].
+  intros p c w w' r H Hinv Hc. destruct c.
+  - destruct (Hc eq_refl) as [G Hp].
+    assert (Hd : isdir (w_fs w) p = false).
+    { unfold isfile in G. unfold isdir. destruct (lookup (w_fs w) p) as [[?|]|]; congruence. }
     apply bind_inv in H. destruct H as [(w1 & u & E1 & H) | (e & E1 & _)].
     + inversion H; subst. eapply back_up_and_remove_R; eauto.
-      * unfold isfile in G. unfold isdir. destruct (lookup (w_fs w) p) as [[?|]|]; congruence.
-      * intro N. exfalso. exact (Hp N).
     + eapply back_up_and_remove_R; eauto.
-      * unfold isfile in G. unfold isdir. destruct (lookup (w_fs w) p) as [[?|]|]; congruence.
-      * intro N. exfalso. exact (Hp N).
   - inversion H; subst. split; [exact Hinv | apply fkeeps_refl].
 Qed.
 
-Lemma try_to_remove_file_R : forall p, QQ p -> pres RPO (try_to_remove_file p).
+Lemma guarded_backup_pres_k : forall p A (k : M A), Q p -> pres RPO k ->
+  pres RPO (bind get (fun w => bind (if isfile (w_fs w) p then bind (back_up_and_remove p) (fun _ => ret tt) else ret tt)
+                                    (fun _ => k))).
+Proof.
+  intros p A k Hp Hk w w' r H Hinv. unfold bind at 1, get in H.
+  apply bind_inv in H. destruct H as [(w1 & u & E1 & H) | (e & E1 & _)].
+  - eapply guarded_backup_R in E1; eauto. destruct E1 as [Hinv1 K1].
+    destruct (Hk _ _ _ H Hinv1) as [Hinv2 K2]. split; [exact Hinv2 | eapply fkeeps_trans; eauto].
+  - eapply guarded_backup_R in E1; eauto.
+Qed.
+
+Lemma guarded_backup_pres : forall p, Q p ->
+  pres RPO (bind get (fun w => if isfile (w_fs w) p then bind (back_up_and_remove p) (fun _ => ret tt) else ret tt)).
+Proof.
+  intros p Hp w w' r H Hinv. unfold bind at 1, get in H. eapply guarded_backup_R; eauto.
+Qed.
+
+Lemma try_to_remove_file_R : forall p, Q p -> pres RPO (try_to_remove_file p).
 Proof.
   intros p Hp. unfold try_to_remove_file. pres_auto. apply effect_remove_R. exact Hp.
 Qed.
 
-Lemma restore_one_R : forall x, QQ (fst x) -> pres RPO (restore_one x).
+Lemma restore_one_R : forall x, Q (fst x) -> pres RPO (restore_one x).
 Proof.
   intros [p f] Hp. cbn [fst] in Hp. unfold restore_one. pres_auto. apply effect_replace_R. exact Hp.
 Qed.
@@ -397,7 +394,7 @@ Proof.
   apply bind_inv in H. destruct H as [(w1 & u & E1 & H) | (e & E1 & _)]; [|discriminate E1].
   unfold put in E1. inversion E1; subst w1; clear E1.
   assert (Hinv1 : Inv (set_backups [] w)).
-  { eapply Inv_step; eauto; try reflexivity; [cbn; intros x [] | apply fkeeps_refl]. }
+  { eapply Inv_step; eauto. cbn. intros x []. }
   destruct Hinv as (A & B & C & D & E).
   refine (pres_mapM_In RPO _ restore_one (w_backups w) _ _ _ _ H Hinv1).
   intros x Hx. apply restore_one_R. apply C. exact Hx.
@@ -411,4 +408,436 @@ Proof. intro ds. unfold create_dirs. pres_auto. Qed.
 
 Hint Resolve remove_empty_dirs_R create_dirs_R restore_all_R : pres.
 
+(* ================================================================== *)
+(* 3. Directory preparation                                            *)
+(* ================================================================== *)
+
+Hypothesis HQcf : Q cf.
+Hypothesis HQold : forall p, cache_created_file old p = true -> Q p.
+
+Lemma make_one_dir_R : forall d, pres RPO (make_one_dir d).
+Proof.
+  intros d w w' r H Hinv. unfold make_one_dir in H. unfold bind at 1, get in H.
+  assert (G : pres RPO (catch (bind (effect "mkdir" d (fun fs => mkdir fs d)) (fun _ => ret true))
+                              (fun e => if is_os_class XFileExists e then ret false else raise e))) by pres_auto.
+  assert (C : isfile (w_fs w) d && cache_created_file (w_old w) d = true -> isfile (w_fs w) d = true /\ Q d).
+  { intro C. apply andb_true_iff in C. destruct C as [C1 C2]. split; [exact C1|].
+    apply HQold. destruct Hinv as (A & _). rewrite <- A. exact C2. }
+  apply bind_inv in H. destruct H as [(w1 & u & E1 & H) | (e & E1 & _)].
+  - apply guarded_backup_R in E1; [| exact Hinv | exact C].
+    destruct E1 as [Hinv1 K1]. destruct (G _ _ _ H Hinv1) as [Hinv2 K2].
+    split; [exact Hinv2 | eapply fkeeps_trans; eauto].
+  - apply guarded_backup_R in E1; [exact E1 | exact Hinv | exact C].
+Qed.
+Hint Resolve make_one_dir_R : pres.
+
+Lemma make_dirs_loop_R : forall ds made, pres RPO (make_dirs_loop ds made).
+Proof.
+  induction ds as [|d ds IH]; intro made; cbn [make_dirs_loop]; pres_auto.
+Qed.
+Hint Resolve make_dirs_loop_R : pres.
+
+Lemma make_dirs_R : forall d, pres RPO (make_dirs d).
+Proof. intro d. unfold make_dirs. pres_auto. Qed.
+Hint Resolve make_dirs_R : pres.
+
+(* the virtual view denies a regular file that is really there only at managed
+   paths: the cache file, a path claimed and in progress, an old created file *)
+Lemma m_is_file_false_managed : forall a w w', m_is_file a None w = (w', inl false) -> Inv w ->
+  isfile (w_fs w) a = true -> Q a.
+Proof.
+  intros a w w' H (A & B & C & D & E) Hf. unfold m_is_file in H.
+  apply bind_inv in H. destruct H as [(w1 & x & E1 & H) | (e & E1 & H)]; [|discriminate H].
+  unfold is_file_no_read in E1. cbn [cf_has_file cf_has_dir] in E1.
+  destruct (path_eqb a (w_cachefile w)) eqn:G1.
+  { apply path_eqb_eq in G1. rewrite G1, B. exact HQcf. }
+  destruct (cache_has_file (w_new w) a) eqn:G2.
+  { unfold cache_get_file in E1. unfold cache_has_file in G2.
+    destruct (files_get (c_files (w_new w)) a) as [[o|]|] eqn:G3; try discriminate G2.
+    - inversion E1; subst. unfold bind at 1, get in H. rewrite Hf in H.
+      apply bind_inv in H. destruct H as [(w2 & y & E2 & H) | (e & E2 & H)]; [inversion H | discriminate H].
+    - apply E. exact G3. }
+  destruct (cache_created_file (w_old w) a) eqn:G3.
+  { apply HQold. rewrite <- A. exact G3. }
+  inversion E1; subst. unfold bind at 1, get in H. rewrite Hf in H.
+  apply bind_inv in H. destruct H as [(w2 & y & E2 & H) | (e & E2 & H)]; [inversion H | discriminate H].
+Qed.
+
+Lemma make_room_R : forall fuel d, pres RPO (make_room fuel d).
+Proof.
+  induction fuel as [|fuel IH]; intro d; cbn [make_room]; [apply pres_raise|].
+  apply pres_bind; [apply pres_get|]. intro w0.
+  destruct (listdir (w_fs w0) d) as [names|e]; [|apply pres_raise].
+  apply pres_bind; [|intros _; pres_auto].
+  apply pres_mapM_. intro n.
+  intros w w' r H Hinv. unfold bind at 1, get in H.
+  destruct (isdir (w_fs w) (n :: d)) eqn:Ed.
+  - refine ((_ : pres RPO _) w w' r H Hinv). pres_auto.
+  - apply bind_inv in H. destruct H as [(w1 & vf & E1 & H) | (e & E1 & _)].
+    2:{ exact (pres_svb_R _ _ (m_is_file_svb _ _) _ _ _ E1 Hinv). }
+    pose proof (m_is_file_svb _ _ _ _ _ E1) as SV.
+    pose proof (svb_Rel _ _ SV Hinv) as [Hinv1 K1].
+    assert (Ffs : w_fs w1 = w_fs w) by (destruct SV as (X & _); exact X).
+    destruct vf.
+    + inversion H; subst. split; assumption.
+    + assert (X : Inv w' /\ fkeeps (w_fs w1) (w_fs w')).
+      { apply bind_inv in H. destruct H as [(w2 & b & E2 & H) | (e & E2 & _)].
+        - inversion H; subst. eapply back_up_and_remove_R; eauto.
+          + rewrite Ffs. exact Ed.
+          + rewrite Ffs. eapply m_is_file_false_managed; eauto.
+        - eapply back_up_and_remove_R; eauto.
+          + rewrite Ffs. exact Ed.
+          + rewrite Ffs. eapply m_is_file_false_managed; eauto. }
+      destruct X as [X1 X2]. split; [exact X1 | eapply fkeeps_trans; eauto].
+Qed.
+Hint Resolve make_room_R : pres.
+
+Lemma prepare_file_creation_R : forall p, pres RPO (prepare_file_creation p).
+Proof. intro p. unfold prepare_file_creation. pres_auto. Qed.
+Hint Resolve prepare_file_creation_R : pres.
+
+Lemma apply_cached_subs_of_R : forall o, pres RPO (apply_cached_subs_of o).
+Proof.
+  induction o as [q r e | p c f a k subs r cr ra sf IH | f a k subs r ra sf IH] using op_ind';
+    cbn [apply_cached_subs_of].
+  - apply pres_ret.
+  - induction IH as [|s rest Hs HF IHl]; cbn beta iota fix; [apply pres_ret|].
+    apply pres_bind; [|intros _; exact IHl]. pres_auto.
+  - induction IH as [|s rest Hs HF IHl]; cbn beta iota fix; [apply pres_ret|].
+    apply pres_bind; [|intros _; exact IHl]. pres_auto.
+Qed.
+Hint Resolve apply_cached_subs_of_R : pres.
+
+(* ================================================================== *)
+(* 4. The new cache                                                    *)
+(* ================================================================== *)
+
+Lemma new_start_building_file_R : forall p, Q p -> pres RPO (new_start_building_file p).
+Proof.
+  intros p Hp. unfold new_start_building_file. apply pres_bind; [auto with pres|]. intros _.
+  apply pres_modify. intros w (A & B & C & D & E). split; [|apply fkeeps_refl].
+  unfold Inv, pending. cbn [w_old w_cachefile w_backups w_new w_fs set_new c_built c_files cache_with].
+  repeat split; auto.
+  - intros q Hq. apply in_app_or in Hq. destruct Hq as [Hq|[<-|[]]]; auto.
+  - intros q Hq. rewrite files_get_set in Hq.
+    destruct (path_eqb p q) eqn:G. { apply path_eqb_eq in G. subst q. exact Hp. }
+    apply E; auto.
+Qed.
+
+Lemma new_abort_building_file_R : forall p, pres RPO (new_abort_building_file p).
+Proof.
+  intros p. unfold new_abort_building_file.
+  apply pres_modify. intros w (A & B & C & D & E). split; [|apply fkeeps_refl].
+  unfold Inv, pending. cbn [w_old w_cachefile w_backups w_new w_fs set_new c_built c_files cache_with].
+  repeat split; auto.
+  - intros q Hq. apply In_del_path in Hq. auto.
+  - intros q Hq. rewrite files_get_del in Hq.
+    destruct (path_eqb p q) eqn:G; [discriminate Hq|]. apply E; auto.
+Qed.
+
+Lemma new_finish_building_file_R : forall p o, pres RPO (new_finish_building_file p o).
+Proof.
+  intros p o. unfold new_finish_building_file.
+  apply pres_modify. intros w (A & B & C & D & E). split; [|apply fkeeps_refl].
+  unfold Inv, pending. cbn [w_old w_cachefile w_backups w_new w_fs set_new c_built c_files cache_with].
+  repeat split; auto.
+  intros q Hq. rewrite files_get_set in Hq.
+  destruct (path_eqb p q) eqn:G; [discriminate Hq|]. apply E; auto.
+Qed.
+
+Lemma new_start_subbuild_R : forall k, pres RPO (new_start_subbuild k).
+Proof.
+  intros k. unfold new_start_subbuild. apply pres_bind; [auto with pres|]. intros _.
+  apply pres_modify. intros w (A & B & C & D & E). split; [|apply fkeeps_refl].
+  unfold Inv, pending. cbn [w_old w_cachefile w_backups w_new w_fs set_new c_built c_files cache_with].
+  repeat split; auto.
+Qed.
+
+Lemma new_finish_subbuild_R : forall k o, pres RPO (new_finish_subbuild k o).
+Proof.
+  intros k o. unfold new_finish_subbuild.
+  apply pres_modify. intros w (A & B & C & D & E). split; [|apply fkeeps_refl].
+  unfold Inv, pending. cbn [w_old w_cachefile w_backups w_new w_fs set_new c_built c_files cache_with].
+  repeat split; auto.
+Qed.
+
+Lemma new_use_cached_operation_R : forall o, pres RPO (new_use_cached_operation o).
+Proof.
+  intros o w w' r H (A & B & C & D & E). unfold new_use_cached_operation in H.
+  unfold bind at 1, get in H. destruct (assert_no_repeats (w_new w) o).
+  - unfold put in H. inversion H; subst. cbn [w_fs set_new]. split; [|apply fkeeps_refl].
+    unfold Inv. cbn [w_old w_cachefile w_backups w_new w_fs set_new]. rewrite register_op_built.
+    repeat split; auto.
+    intros q Hq. apply E. eapply register_op_pending; eauto.
+  - inversion H; subst. split; [unfold Inv; auto | apply fkeeps_refl].
+Qed.
+
+Lemma set_created_dirs_R : forall ccd, pres RPO (set_created_dirs ccd).
+Proof.
+  intros ccd w w' r H Hinv. unfold set_created_dirs in H. unfold bind at 1, get in H. cbv zeta in H.
+  apply bind_inv in H. destruct H as [(w1 & u & E1 & H) | (e & E1 & _)]; [|discriminate E1].
+  unfold put in E1. inversion E1; subst w1; clear E1. inversion H; subst; clear H.
+  destruct Hinv as (A & B & C & D & E). split; [|apply fkeeps_refl].
+  unfold Inv, pending. cbn [w_old w_cachefile w_backups w_new w_fs set_new c_built c_files cache_with].
+  repeat split; auto.
+Qed.
+Hint Resolve new_abort_building_file_R new_finish_building_file_R new_start_subbuild_R new_finish_subbuild_R
+  new_use_cached_operation_R set_created_dirs_R : pres.
+
+(* ================================================================== *)
+(* 5. Commit, roll back, the cache file                                *)
+(* ================================================================== *)
+
+Hypothesis HQcreated : forall p, In p (cache_created_files old) -> Q p.
+
+Lemma commit_R : forall err, pres RPO (commit err).
+Proof.
+  intro err. unfold commit. apply pres_bind_get. intros w0 (A & B & C & D & E).
+  apply pres_bind; [|intros _; apply pres_bind; [|intro; auto with pres]].
+  - apply pres_mapM_In. intros f Hf. pres_auto. apply try_to_remove_file_R.
+    apply HQcreated. rewrite <- A. exact Hf.
+  - generalize (c_dirs (w_old w0)). intro ds. induction ds as [|d ds IH]; pres_auto.
+Qed.
+
+Lemma roll_back_R : forall ccd, pres RPO (roll_back ccd).
+Proof.
+  intro ccd. unfold roll_back. apply pres_bind_get. intros w0 (A & B & C & D & E). cbv zeta.
+  apply pres_bind; [|intros _; pres_auto].
+  apply pres_mapM_In. intros f Hf. apply try_to_remove_file_R. apply D. exact Hf.
+Qed.
+
+Lemma write_cache_R : pres RPO write_cache.
+Proof.
+  unfold write_cache. apply pres_bind_get. intros w0 (A & B & C & D & E).
+  destruct (cache_to_json (w_new w0)) as [j|]; [|apply pres_raise]. cbv zeta.
+  assert (Hp : Q (w_cachefile w0)) by (rewrite B; exact HQcf).
+  apply pres_bind; [apply effect_write_R; exact Hp|]. intros _.
+  apply pres_bind; [|intros _; apply effect_write_R; exact Hp].
+  apply pres_modify. intro w. apply Rel_same; reflexivity.
+Qed.
+Hint Resolve commit_R roll_back_R write_cache_R : pres.
+
+(* ================================================================== *)
+(* 6. build_file, subbuild, queries, user code                         *)
+(* ================================================================== *)
+
+Variable P : path -> Prop.        (* the targets of this build *)
+Hypothesis HQP : forall p, P p -> Q p.
+
+(* collect the facts of the runs in the context, then chain them *)
+Ltac rel_facts :=
+  repeat match goal with
+  | E : ?m ?w = (?w1, _) |- _ =>
+      lazymatch goal with
+      | _ : Rel w w1 |- _ => fail
+      | _ => let X := fresh "RL" in
+             assert (X : Rel w w1) by (refine ((_ : pres RPO m) w w1 _ E); solve [pres_auto])
+      end
+  end.
+Ltac rel_chain :=
+  repeat first [ eassumption
+               | apply Rel_refl
+               | apply Rel_set_log
+               | eapply Rel_trans; [eassumption|]
+               | eapply Rel_trans; [apply Rel_set_log|];
+                 first [ eassumption | eapply Rel_trans; [eassumption|] ] ].
+
+Lemma m_build_file_R : forall p c f a kw fn, P p ->
+  (forall sa skw, pres RPO (fn p sa skw)) -> pres RPO (m_build_file p c f a kw fn).
+Proof.
+  intros p c f a kw fn Hp Hfn w w' r H. unfold m_build_file in H.
+  assert (HQp : Q p) by (apply HQP, Hp).
+  destruct (sanitize a) as [sa|]; [|inversion H; subst; apply Rel_refl].
+  destruct (sanitize kw) as [skw|]; [|inversion H; subst; apply Rel_refl].
+  cbv zeta in H.
+  pose proof (try_to_remove_file_R p HQp) as T1.
+  pose proof (new_start_building_file_R p HQp) as T2.
+  pose proof (guarded_backup_pres p HQp) as T3.
+  match type of H with (match ?X with _ => _ end) = _ => destruct X as [w1 res] eqn:Hs end.
+  change (Rel w w').
+  repeat dm H; inversion H; subst; rel_facts; rel_chain.
+Qed.
+
+Lemma m_subbuild_R : forall f a kw fn,
+  (forall sa skw, pres RPO (fn sa skw)) -> pres RPO (m_subbuild f a kw fn).
+Proof.
+  intros f a kw fn Hfn w w' r H. unfold m_subbuild in H.
+  destruct (sanitize a) as [sa|]; [|inversion H; subst; apply Rel_refl].
+  destruct (sanitize kw) as [skw|]; [|inversion H; subst; apply Rel_refl].
+  cbv zeta in H.
+  match type of H with (match ?X with _ => _ end) = _ => destruct X as [w1 res] eqn:Hs end.
+  change (Rel w w').
+  repeat dm H; inversion H; subst; rel_facts; rel_chain.
+Qed.
+
+Lemma m_query_R : forall q, pres RPO (m_query q).
+Proof. intro q. apply pres_svb_R, m_query_svb. Qed.
+
+Lemma Rel_log_answer : forall q r w, Rel w (log_answer q r w).
+Proof.
+  intros q r w. unfold log_answer.
+  repeat match goal with |- context [match ?x with _ => _ end] => destruct x end;
+    first [apply Rel_refl | apply Rel_set_log].
+Qed.
+
+(* user code: it can only write the target it was given *)
+Theorem run_R : forall pr, AllTargets P pr ->
+  forall target subs, (forall p, target = Some p -> P p) -> pres RPO (run pr target subs).
+Proof.
+  intros pr Hat.
+  induction Hat as [v | e | s q k Hk IHk | c k Hk IHk | s p c f a kw fn k Hp Hfn IHfn Hk IHk
+                    | s f a kw fn k Hfn IHfn Hk IHk];
+    intros target subs Ht w w' r H; cbn [run] in H; change (Rel w w').
+  - inversion H; subst. apply Rel_refl.
+  - inversion H; subst. apply Rel_refl.
+  - destruct s; [eapply IHk; eauto|].
+    destruct (m_query q w) as [w1 [r1 o]] eqn:E.
+    apply m_query_R in E. apply IHk in H; [|exact Ht].
+    eapply Rel_trans; [exact E|]. eapply Rel_trans; [apply Rel_log_answer | exact H].
+  - destruct target as [p|]; [|eapply IHk; eauto].
+    destruct (write_file (w_fs w) p c None (N.succ (w_clock w)) (w_nextid w)) as [fs'|e] eqn:E.
+    + apply IHk in H; [|exact Ht]. eapply Rel_trans; [|exact H].
+      assert (K : fkeeps (w_fs w) fs').
+      { eapply write_file_fkeeps; [|exact E]. apply HQP, Ht. reflexivity. }
+      intro Hinv. split; [|exact K]. eapply Inv_same; eauto.
+    + inversion H; subst. apply Rel_refl.
+  - destruct s; [eapply IHk; eauto|].
+    match type of H with (let '(_, _) := ?X in _) = _ => destruct X as [w1 [r1 o]] eqn:E end.
+    apply m_build_file_R in E; [| exact Hp |].
+    + apply IHk in H; [|exact Ht]. eapply Rel_trans; eauto.
+    + intros sa skw. apply IHfn. intros p0 X. inversion X; subst. exact Hp.
+  - destruct s; [eapply IHk; eauto|].
+    match type of H with (let '(_, _) := ?X in _) = _ => destruct X as [w1 [r1 o]] eqn:E end.
+    apply m_subbuild_R in E.
+    + apply IHk in H; [|exact Ht]. eapply Rel_trans; eauto.
+    + intros sa skw. apply IHfn. intros p0 X. discriminate X.
+Qed.
+
+(* ================================================================== *)
+(* 7. The whole build                                                  *)
+(* ================================================================== *)
+
+Lemma Inv_start : forall w nm svers, Inv (start_world w cf old nm svers).
+Proof.
+  intros w nm svers. unfold Inv, pending, start_world.
+  cbn [w_old w_cachefile w_backups w_new w_fs empty_cache c_built c_files].
+  repeat split; auto.
+  intros p H. cbn in H. discriminate H.
+Qed.
+
+Lemma m_build_fkeeps : forall nm vers svers root w w' r,
+  sanitize vers = Some svers -> old = old_cache_of (w_fs w) cf nm svers -> pres RPO root ->
+  m_build cf nm vers root w = (w', r) -> fkeeps (w_fs w) (w_fs w').
+Proof.
+  intros nm vers svers root w w' r Hsv Hold Hroot H. unfold m_build in H. rewrite Hsv in H.
+  cbv beta iota zeta in H. unfold old_cache_of in Hold.
+  pose proof (try_to_remove_file_R cf HQcf) as T1.
+  assert (T2 : forall ccd, pres RPO
+    (bind (set_created_dirs ccd) (fun err => bind get (fun w =>
+       bind (if isfile (w_fs w) cf then bind (back_up_and_remove cf) (fun _ => ret tt) else ret tt)
+            (fun _ => ret err))))).
+  { intro ccd. apply pres_bind; [auto with pres|]. intro err.
+    apply guarded_backup_pres_k; [exact HQcf | apply pres_ret]. }
+  pose proof (Inv_start w nm svers) as Hinv0.
+  assert (HA : forall w2, Rel (start_world w cf old nm svers) w2 -> fkeeps (w_fs w) (w_fs w2)).
+  { intros w2 X. destruct (X Hinv0) as [_ K]. exact K. }
+  destruct (lookup (w_fs w) cf) as [[f|]|].
+  - destruct (cache_of_json (f_json f)) as [old0| |].
+    + subst old0. destruct (String.eqb (c_name old) nm); [| inversion H; subst; apply fkeeps_refl].
+      apply HA. clear HA Hinv0.
+      repeat dm H; inversion H; subst; rel_facts; rel_chain.
+    + inversion H; subst; apply fkeeps_refl.
+    + inversion H; subst; apply fkeeps_refl.
+  - inversion H; subst; apply fkeeps_refl.
+  - rewrite <- Hold in H. apply HA. clear HA Hinv0.
+    repeat dm H; inversion H; subst; rel_facts; rel_chain.
+Qed.
+
 End FrameRel.
+
+(* ================================================================== *)
+(* 8. The frame theorems                                               *)
+(* ================================================================== *)
+
+Lemma cache_created_file_In : forall c p, cache_created_file c p = true -> In p (cache_created_files c).
+Proof.
+  intros c p H. unfold cache_created_file, cache_get_file in H.
+  destruct (files_get (c_files c) p) as [[o|]|] eqn:E; try discriminate H.
+  apply files_get_In in E. unfold cache_created_files. apply in_flat_map.
+  exists (p, Some o). split; [exact E|]. cbn [snd fst]. destruct (op_raised o); [discriminate H | left; reflexivity].
+Qed.
+
+Lemma cache_created_files_keys : forall c p, In p (cache_created_files c) -> In p (map fst (c_files c)).
+Proof.
+  intros c p H. unfold cache_created_files in H. apply in_flat_map in H. destruct H as ([q o] & H1 & H2).
+  cbn [snd fst] in H2. destruct o as [o|]; [|destruct H2].
+  destruct (op_raised o); [destruct H2|]. destruct H2 as [H2|[]]. subst q. apply (in_map fst) in H1. exact H1.
+Qed.
+
+Lemma Managed_ManagedL : forall P old cf p, Managed P old cf p -> ManagedL P old cf p.
+Proof.
+  intros P old cf p [H|[H|H]]; [left; exact H | right; left; apply cache_created_files_keys, H | right; right; exact H].
+Qed.
+
+(* both directions at once, for any build: outside the managed set the regular
+   files before and after are the same nodes *)
+Theorem run_build_frame : forall cf nm vers svers root w w' r (P : path -> Prop),
+  sanitize vers = Some svers ->
+  AllTargets P root ->
+  run_build cf nm vers root w = (w', r) ->
+  fkeeps (Managed P (old_cache_of (w_fs w) cf nm svers) cf) (w_fs w) (w_fs w').
+Proof.
+  intros cf nm vers svers root w w' r P Hsv Hat H.
+  set (old := old_cache_of (w_fs w) cf nm svers). set (Q := Managed P old cf).
+  unfold run_build in H.
+  destruct (m_build cf nm vers (fun w0 => run root None [] w0) w) as [w1 r1] eqn:E.
+  inversion H; subst w' r; clear H.
+  change (w_fs (end_build w1)) with (w_fs w1).
+  assert (HQcf : Q cf) by (right; right; reflexivity).
+  assert (HQcr : forall p, In p (cache_created_files old) -> Q p) by (intros p Hp; right; left; exact Hp).
+  assert (HQold : forall p, cache_created_file old p = true -> Q p).
+  { intros p Hp. apply HQcr, cache_created_file_In, Hp. }
+  assert (HQP : forall p, P p -> Q p) by (intros p Hp; left; exact Hp).
+  eapply (m_build_fkeeps Q old cf HQcf HQold HQcr); [exact Hsv | reflexivity | | exact E].
+  apply (run_R Q old cf HQcf HQold P HQP root Hat None []). intros p X. discriminate X.
+Qed.
+
+(* C03, tight form: only the recorded outputs of successful old records count as managed *)
+Theorem build_preserves_foreign_files_tight : forall cf nm vers svers root w w' r (P : path -> Prop),
+  sanitize vers = Some svers ->
+  AllTargets P root ->
+  run_build cf nm vers root w = (w', r) ->
+  forall p f, lookup (w_fs w) p = Some (NFile f) ->
+    ~ Managed P (old_cache_of (w_fs w) cf nm svers) cf p ->
+    lookup (w_fs w') p = Some (NFile f).
+Proof.
+  intros cf nm vers svers root w w' r P Hsv Hat H p f Hl Hn.
+  exact (proj1 (run_build_frame cf nm vers svers root w w' r P Hsv Hat H p Hn f) Hl).
+Qed.
+
+(* C03 *)
+Theorem build_preserves_foreign_files : forall cf nm vers svers root w w' r (P : path -> Prop),
+  sanitize vers = Some svers ->
+  AllTargets P root ->
+  run_build cf nm vers root w = (w', r) ->
+  forall p f, lookup (w_fs w) p = Some (NFile f) ->
+    ~ ManagedL P (old_cache_of (w_fs w) cf nm svers) cf p ->
+    lookup (w_fs w') p = Some (NFile f).
+Proof.
+  intros cf nm vers svers root w w' r P Hsv Hat H p f Hl Hn.
+  eapply build_preserves_foreign_files_tight; eauto.
+  intro X. apply Hn, Managed_ManagedL, X.
+Qed.
+
+(* the converse: a build creates no regular file at an unmanaged path *)
+Theorem build_creates_no_foreign_files : forall cf nm vers svers root w w' r (P : path -> Prop),
+  sanitize vers = Some svers ->
+  AllTargets P root ->
+  run_build cf nm vers root w = (w', r) ->
+  forall p f, lookup (w_fs w') p = Some (NFile f) ->
+    ~ Managed P (old_cache_of (w_fs w) cf nm svers) cf p ->
+    lookup (w_fs w) p = Some (NFile f).
+Proof.
+  intros cf nm vers svers root w w' r P Hsv Hat H p f Hl Hn.
+  exact (proj2 (run_build_frame cf nm vers svers root w w' r P Hsv Hat H p Hn f) Hl).
+Qed.
